@@ -262,6 +262,8 @@ class ComputeStructuralGoBias(Processor):
 
     def run_molecule(self, molecule):
         self.res_graph = make_residue_graph(molecule)
+        # The residue lookup table belongs to the residue graph of one molecule.
+        self.__chain_id_to_resnode = {}
         # compute the contacts; this also creates
         # the exclusions
         contacts = self.contact_selector(molecule)
